@@ -133,36 +133,29 @@ fn c14b_timing_roa() {
     kani::cover!(t.timing_roa_valid_weeks == 255);
 }
 
-// vk: tier=thorough; timeout=1800; bound=lifetimes and margins 0..=255 weeks, now in a 2^20 s window
-#[kani::proof]
-#[kani::stub(rpki::repository::x509::Time::now, stub_now)]
-fn c14b_timing_aspa() {
+fn check_timing_aspa(cap: u32) {
     let now = sym_now();
-    let t = any_timing(255);
+    let t = any_timing(cap);
     check_validity(t.new_aspa_validity(), now, t.timing_aspa_valid_weeks);
     assert!(t.new_aspa_issuance_threshold() == now + Duration::weeks(t.timing_aspa_reissue_weeks_before as i64));
     kani::cover!(t.timing_aspa_valid_weeks > t.timing_aspa_reissue_weeks_before);
     kani::cover!(t.timing_aspa_valid_weeks == 0);
+    kani::cover!(t.timing_aspa_reissue_weeks_before != t.timing_roa_reissue_weeks_before);
 }
 
-// vk: tier=thorough; timeout=1800; bound=lifetimes and margins 0..=255 weeks, now in a 2^20 s window
-#[kani::proof]
-#[kani::stub(rpki::repository::x509::Time::now, stub_now)]
-fn c14b_timing_bgpsec() {
+fn check_timing_bgpsec(cap: u32) {
     let now = sym_now();
-    let t = any_timing(255);
+    let t = any_timing(cap);
     check_validity(t.new_bgpsec_validity(), now, t.timing_bgpsec_valid_weeks);
     assert!(t.new_bgpsec_issuance_threshold() == now + Duration::weeks(t.timing_bgpsec_reissue_weeks_before as i64));
     kani::cover!(t.timing_bgpsec_valid_weeks > t.timing_bgpsec_reissue_weeks_before);
     kani::cover!(t.timing_bgpsec_valid_weeks == 0);
+    kani::cover!(t.timing_bgpsec_reissue_weeks_before != t.timing_roa_reissue_weeks_before);
 }
 
-// vk: tier=thorough; timeout=1800; bound=lifetimes and margins 0..=255 weeks, now in a 2^20 s window
-#[kani::proof]
-#[kani::stub(rpki::repository::x509::Time::now, stub_now)]
-fn c14b_timing_child_cert() {
+fn check_timing_child(cap: u32) {
     let now = sym_now();
-    let t = any_timing(255);
+    let t = any_timing(cap);
     let v = t.new_child_cert_validity();
     check_validity(v, now, t.timing_child_certificate_valid_weeks);
     assert!(t.new_child_cert_not_after() == v.not_after());
@@ -171,6 +164,39 @@ fn c14b_timing_child_cert() {
     kani::cover!(t.timing_child_certificate_valid_weeks > t.timing_child_certificate_reissue_weeks_before);
     kani::cover!(t.timing_child_certificate_valid_weeks == 0);
 }
+
+/// ASPA, BGPsec and child-certificate lifetimes and margins: each function
+/// uses its OWN configured value (all eleven configuration values are
+/// independent symbolic inputs).
+// vk: bound=lifetimes and margins 0..=15 weeks, now in a 2^20 s window
+#[kani::proof]
+#[kani::stub(rpki::repository::x509::Time::now, stub_now)]
+fn c14b_timing_aspa_15() { check_timing_aspa(15); }
+
+// vk: bound=lifetimes and margins 0..=15 weeks, now in a 2^20 s window
+#[kani::proof]
+#[kani::stub(rpki::repository::x509::Time::now, stub_now)]
+fn c14b_timing_bgpsec_15() { check_timing_bgpsec(15); }
+
+// vk: bound=lifetimes and margins 0..=15 weeks, now in a 2^20 s window
+#[kani::proof]
+#[kani::stub(rpki::repository::x509::Time::now, stub_now)]
+fn c14b_timing_child_cert_15() { check_timing_child(15); }
+
+// vk: tier=thorough; timeout=1800; bound=lifetimes and margins 0..=255 weeks, now in a 2^20 s window
+#[kani::proof]
+#[kani::stub(rpki::repository::x509::Time::now, stub_now)]
+fn c14b_timing_aspa_255() { check_timing_aspa(255); }
+
+// vk: tier=thorough; timeout=1800; bound=lifetimes and margins 0..=255 weeks, now in a 2^20 s window
+#[kani::proof]
+#[kani::stub(rpki::repository::x509::Time::now, stub_now)]
+fn c14b_timing_bgpsec_255() { check_timing_bgpsec(255); }
+
+// vk: tier=thorough; timeout=1800; bound=lifetimes and margins 0..=255 weeks, now in a 2^20 s window
+#[kani::proof]
+#[kani::stub(rpki::repository::x509::Time::now, stub_now)]
+fn c14b_timing_child_cert_255() { check_timing_child(255); }
 
 //------------ C14(c): next-update of manifests and CRLs ------------------------
 
